@@ -348,7 +348,11 @@ class MagicProperties:
         self._freeze()
 
     def __setattr__(self, key, value):
-        if self.__isfrozen and not hasattr(self, key):
+        # only properties can be set: the name of a method (`copy`, `update`, ...) is not a
+        # property, and assigning to it would shadow the method on this instance
+        if self.__isfrozen and (
+            not hasattr(self, key) or callable(getattr(type(self), key, None))
+        ):
             raise AttributeError(
                 f"{type(self).__name__} has no property '{key}'"
                 f"\n Available properties are: {list(self._property_names_generator())}"
